@@ -245,9 +245,9 @@ def run(ctx):
                 ("d_tab", dict(max_user=2, orders="OrdersWide", at="ATStd", **small), 6),
                 ("d_copy", dict(max_user=2, copy=True, **small), 4),
                  ("d_three", dict(max_user=3, aligns="AlignsStd", bufs="BufsSmall", vsizes="VSizesStd", text="TextSmall"), 12),
-                 ("d_four", dict(max_user=4, **small), 12),
+                 ("d_four", dict(max_user=4, **tiny), 12),
                  ("d_copytab", dict(max_user=2, at="ATStd", copy=True, **tiny), 8)]
-    nsim = 1500 if q else 30000
+    nsim = 1500 if q else 20000
     jobs = [(name, kw, w, {}) for name, kw, w in runs]
     # the algorithm exactly as written in the pinned tree (every section becomes `prev`): a hint, not a verdict
     jobs.append(("d_pinned", dict(max_user=2, fixed=False), 2, {}))
@@ -304,7 +304,7 @@ def run(ctx):
         ctx.log("harness (script) exit", rc, err[-1500:])
     # ---- 3. seeded random section tables (up to 12 sections, 64 KiB alignments, arbitrary names) -----------
     tr2 = ctx.path("trace_random.ndjson")
-    nexec = 2000 if q else 40000
+    nexec = 2000 if q else 25000
     rc2, _, err2 = vlib.run_harness(ctx, bdir, "layout", ["random", tr2, nexec], timeout=900, env={"VERIF_SEED": ctx.seed})
     if rc2 != 0:
         ctx.log("harness (random) exit", rc2, err2[-1500:])
